@@ -110,14 +110,17 @@ def op_to_coq(o, P):
         return "UCount"
     if t == "clear":
         return "UClear"
+    d = "WAll"
+    if o.get("stop") is not None:
+        d = "(WStopAt %s %s)" % (P.b(o["stop"]), {"cancel": "ECancel", "user": "EUser"}[o["stoperr"]])
     if t == "walk":
-        return "UWalk"
+        return "UWalk %s" % d
     if t == "walkclass":
-        return "UWalkClass %s" % c
+        return "UWalkClass %s %s" % (c, d)
     if t == "walkpartial":
-        return "UWalkPartial %s" % win
+        return "UWalkPartial %s %s" % (win, d)
     if t == "walkpartialclass":
-        return "UWalkPartialClass %s %s" % (c, win)
+        return "UWalkPartialClass %s %s %s" % (c, win, d)
     raise ValueError(t)
 
 
@@ -319,6 +322,9 @@ def reference(ops, ordered, hk):
             for _, (cl, val) in items:
                 if not json_ok(val):
                     e = "decode"
+                    break
+                if o.get("stop") is not None and val == bytes.fromhex(o["stop"]):
+                    e = "ok" if o["stoperr"] == "cancel" else "user"
                     break
                 w.append([cl.hex(), val.hex()])
             r = {"e": e}
